@@ -1,12 +1,12 @@
 import AL.Lemmas.InsecureBasic
 /-
-  C11, the main invariant: for an expression `e` satisfying the side condition `ok`, running the
-  machine on `(check Γ e).evs` from any state `st` (outside safe calls)
+  C11, the main invariant: running the machine on `(check Γ e).evs` from any state `st` (outside safe
+  calls)
     * first finishes `st` (emitting its pending report),
     * then emits the reports of `e` except the one of its outermost pending chain,
     * and ends with the cursor set `followAll …` of that outermost chain
-  (`Eff`), unless `e` is a safe call, which is transparent.  `Sem` is the observational corollary
-  "after a final `end()` the reports are those of the spec", which is compositional.
+  (`Eff`).  A safe call is the special case "finish, nothing pending".  `Sem` is the observational
+  corollary "after a final `end()` the reports are those of the spec", which is compositional.
 -/
 namespace AL.Insecure
 open AL AL.Sema AL.Spec
@@ -47,11 +47,6 @@ theorem chain_index_nonlit (r i : E) (s : List Seg) (h : nonLit i = true) :
   cases i <;> first | (simp [nonLit] at h; done) | (rw [chain]; all_goals (intro v hv; cases hv))
 theorem leaveOf_index_nonlit (r i : E) (h : nonLit i = true) : leaveOf lower (.index r i) = .index := by
   cases i <;> first | (simp [nonLit] at h; done) | rfl
-theorem ok_index_nonlit (r i : E) (h : nonLit i = true) :
-    ok lower defined (.index r i) =
-      (ok lower defined i && ok lower defined r && (!isSafeE lower r || clean lower i)) := by
-  cases i <;> first | (simp [nonLit] at h; done) | (simp only [ok])
-
 theorem chain_nil (e : E) : chain roots lower defined e [] = reports roots lower defined e := by
   cases e with
   | index r i => cases i <;> simp [chain, reports]
@@ -95,10 +90,6 @@ theorem Sem.append {roots : List Trie} {a b : List Ev} {ra rb : List (List Strin
   obtain ⟨h3, h4⟩ := hb _ h1
   rw [exec_append]
   exact ⟨h3, by rw [h4, h2, List.append_assoc]⟩
-
-theorem Sem.of_transp {roots : List Trie} {evs : List Ev} (h : ∀ st : State, exec roots st evs = st) :
-    Sem roots evs [] := by
-  intro st hs; rw [h st]; simp [hs]
 
 theorem Eff.toSem {roots : List Trie} {evs : List Ev} {pre : List (List String)} {pc : List Cur} {pf : Bool}
     (h : Eff roots evs pre pc pf) : Sem roots evs (pre ++ rep pc) := by
@@ -156,219 +147,163 @@ local notation "dfn" => dfnOf env
 
 /-- what the invariant says about `check env e` -/
 def Inv (e : E) : Prop :=
-  ok env.lower dfn e = true → isSafeE env.lower e = false →
-    ∃ pre pc pf, Eff roots (check env e).evs pre pc pf ∧
-      (∀ suffix, chain roots env.lower dfn e suffix = pre ++ rep (followAll pc pf suffix)) ∧
-      (clean env.lower e = true → pc = [])
+  ∃ pre pc pf, Eff roots (check env e).evs pre pc pf ∧
+    (∀ suffix, chain roots env.lower dfn e suffix = pre ++ rep (followAll pc pf suffix))
 
-theorem Inv.sem {e : E} (ih : Inv roots env e) (hok : ok env.lower dfn e = true) :
+theorem Inv.sem {e : E} (ih : Inv roots env e) :
     Sem roots (check env e).evs (reports roots env.lower dfn e) := by
-  cases hs : isSafeE env.lower e
-  · obtain ⟨pre, pc, pf, h1, h2, _⟩ := ih hok hs
-    have := h2 []
-    rw [chain_nil] at this
-    rw [this]; exact h1.toSem
-  · rw [reports_safe _ _ _ _ hs]
-    exact Sem.of_transp (transp_safe roots env e hs)
+  obtain ⟨pre, pc, pf, h1, h2⟩ := ih
+  have := h2 []
+  rw [chain_nil] at this
+  rw [this]; exact h1.toSem
 
 /-- a non-chain node: children have observational semantics `rs`, then the node's own leave calls `end()` -/
 theorem Inv.of_finish {e : E} {body : List Ev}
     (hevs : (check env e).evs = body ++ [.leave .other])
     (hchain : ∀ s, chain roots env.lower dfn e s = reports roots env.lower dfn e)
-    (hbody : ok env.lower dfn e = true → Sem roots body (reports roots env.lower dfn e)) : Inv roots env e := by
-  intro hok _
-  refine ⟨reports roots env.lower dfn e, [], false, ?_, ?_, fun _ => rfl⟩
-  · rw [hevs]; exact (hbody hok).thenFinish
+    (hbody : Sem roots body (reports roots env.lower dfn e)) : Inv roots env e := by
+  refine ⟨reports roots env.lower dfn e, [], false, ?_, ?_⟩
+  · rw [hevs]; exact hbody.thenFinish
   · intro s; simp [hchain, followAll_nil]
 
 theorem inv_all (e : E) : Inv roots env e := by
   apply check.induct env
     (motive1 := fun e => Inv roots env e)
-    (motive2 := fun e x => ok env.lower dfn e = true → Sem roots (narrow env e x).evs (reports roots env.lower dfn e))
-    (motive3 := fun args => okList env.lower dfn args = true →
-      Sem roots (checkArgs env args).2.2 (reportsList roots env.lower dfn args))
+    (motive2 := fun e x => Sem roots (narrow env e x).evs (reports roots env.lower dfn e))
+    (motive3 := fun args => Sem roots (checkArgs env args).2.2 (reportsList roots env.lower dfn args))
   case case1 =>
     exact Inv.of_finish roots env (body := []) (evs_null env) (fun s => by simp [chain, reports])
-      (fun _ => by simpa [reports] using Sem.nil roots)
+      (by simpa [reports] using Sem.nil roots)
   case case2 =>
     exact Inv.of_finish roots env (body := []) (evs_bool env) (fun s => by simp [chain, reports])
-      (fun _ => by simpa [reports] using Sem.nil roots)
+      (by simpa [reports] using Sem.nil roots)
   case case3 =>
     exact Inv.of_finish roots env (body := []) (evs_num env) (fun s => by simp [chain, reports])
-      (fun _ => by simpa [reports] using Sem.nil roots)
+      (by simpa [reports] using Sem.nil roots)
   case case4 =>
     intro v
     exact Inv.of_finish roots env (body := []) (evs_str env v) (fun s => by simp [chain, reports])
-      (fun _ => by simpa [reports] using Sem.nil roots)
+      (by simpa [reports] using Sem.nil roots)
   case case5 =>
-    intro n _ _
-    refine ⟨[], (match roots.find? (·.name = n) with | none => [] | some r => [⟨[r.name], r⟩]), false, ?_, ?_, ?_⟩
+    intro n
+    refine ⟨[], (match roots.find? (·.name = n) with | none => [] | some r => [⟨[r.name], r⟩]), false, ?_, ?_⟩
     · intro st h
       rw [evs_var, exec_cons, exec_nil, step_var _ _ _ h, finish_eq]
       simp only [State.onVar]
       cases roots.find? (·.name = n) <;> simp [h]
     · intro s; rw [chain, chainReport_eq]; simp
-    · simp [clean]
   case case6 =>
-    intro r p _ _ _ _ _ ih hok _
-    rw [ok] at hok
-    simp only [Bool.and_eq_true, Bool.not_eq_true'] at hok
-    obtain ⟨pre, pc, pf, h1, h2, h3⟩ := ih hok.2 hok.1
-    refine ⟨pre, pc.filterMap (·.child p), pf, ?_, ?_, ?_⟩
+    intro r p _ _ _ _ _ ih
+    obtain ⟨pre, pc, pf, h1, h2⟩ := ih
+    refine ⟨pre, pc.filterMap (·.child p), pf, ?_, ?_⟩
     · rw [evs_objDeref]
       exact h1.thenSeg _ _ _ (fun rs => by simp [State.step, State.onPropAccess])
     · intro s; rw [chain, h2]; simp [followAll, follow]
-    · intro hc; rw [clean] at hc; simp [h3 hc]
   case case7 =>
-    intro r _ _ _ _ ih hok _
-    rw [ok] at hok
-    simp only [Bool.and_eq_true, Bool.not_eq_true'] at hok
-    obtain ⟨pre, pc, pf, h1, h2, h3⟩ := ih hok.2 hok.1
-    refine ⟨pre, (follow pc pf .star).1, true, ?_, ?_, ?_⟩
+    intro r _ _ _ _ ih
+    obtain ⟨pre, pc, pf, h1, h2⟩ := ih
+    refine ⟨pre, (follow pc pf .star).1, true, ?_, ?_⟩
     · rw [evs_arrDeref]
       exact h1.thenSeg _ _ _ (fun rs => rfl)
     · intro s; rw [chain, h2]; simp [followAll, follow]
-    · intro hc; rw [clean] at hc; simp [h3 hc, follow]
   case case8 =>
-    intro r i _ _ _ _ _ ihi ihr hok _
+    intro r i _ _ _ _ _ ihi ihr
+    obtain ⟨pre, pc, pf, h1, h2⟩ := ihr
     cases hl : nonLit i
     · -- string-literal index: the literal's own leave finishes the state, then a property access
       obtain ⟨v, rfl⟩ : ∃ v, i = .str v := by
         cases i <;> simp [nonLit] at hl
         exact ⟨_, rfl⟩
-      rw [ok] at hok
+      unfold Inv
       rw [evs_index, evs_str]
-      cases hs : isSafeE env.lower r
-      · obtain ⟨pre, pc, pf, h1, h2, h3⟩ := ihr hok hs
-        refine ⟨pre, pc.filterMap (·.child (env.lower v)), pf, ?_, ?_, ?_⟩
-        · have := ((Eff.lit roots).toSem.thenEff h1).thenSeg (.indexLit (env.lower v))
-            (pc.filterMap (·.child (env.lower v))) pf
-            (fun rs => by simp [State.step, State.onPropAccess])
-          simpa [leaveOf] using this
-        · intro s; rw [chain_index_lit, h2]; simp [followAll, follow]
-        · intro hc; rw [clean] at hc; simp [h3 hc]
-      · refine ⟨[], [], false, ?_, ?_, fun _ => rfl⟩
-        · intro st h
-          simp only [exec_append, exec_cons, exec_nil]
-          rw [step_other _ _ h, transp_safe roots env r hs]
-          simp [State.step, finish_eq, h, leaveOf, State.onPropAccess]
-        · intro s; rw [chain_index_lit, chain_safe _ _ _ _ hs]; simp [followAll_nil]
-    · rw [ok_index_nonlit _ _ _ _ hl] at hok
-      simp only [Bool.and_eq_true, Bool.or_eq_true, Bool.not_eq_true'] at hok
-      obtain ⟨⟨hoki, hokr⟩, hsc⟩ := hok
+      refine ⟨pre, pc.filterMap (·.child (env.lower v)), pf, ?_, ?_⟩
+      · have := ((Eff.lit roots).toSem.thenEff h1).thenSeg (.indexLit (env.lower v))
+          (pc.filterMap (·.child (env.lower v))) pf
+          (fun rs => by simp [State.step, State.onPropAccess])
+        simpa [leaveOf] using this
+      · intro s; rw [chain_index_lit, h2]; simp [followAll, follow]
+    · -- the operand's leftmost leaf (variable, literal, call — safe or not) finishes the index's pending chain
+      unfold Inv
       rw [evs_index, leaveOf_index_nonlit _ _ _ hl]
-      cases hs : isSafeE env.lower r
-      · -- ordinary case: the operand's leftmost leaf finishes the index's pending chain
-        obtain ⟨pre, pc, pf, h1, h2, h3⟩ := ihr hokr hs
-        have hi := Inv.sem roots env ihi hoki
-        refine ⟨reports roots env.lower dfn i ++ pre, (follow pc pf .idx).1, false, ?_, ?_, ?_⟩
-        · exact (hi.thenEff h1).thenSeg .index _ _
-            (fun rs => by cases pf <;> simp [State.step, State.onIndexAccess, follow])
-        · intro s; rw [chain_index_nonlit _ _ _ _ _ _ hl, h2]
-          cases pf <;> simp [followAll, follow]
-        · intro hc; rw [clean] at hc; cases pf <;> simp [h3 hc, follow]
-      · -- safe call indexed by a `clean` expression: nothing is pending when the index access fires
-        have hci : clean env.lower i = true := by simpa [hs] using hsc
-        have hsi : isSafeE env.lower i = false := by
-          cases i <;> simp_all [isSafeE, clean]
-        obtain ⟨pre, pc, pf, h1, h2, h3⟩ := ihi hoki hsi
-        have hpc := h3 hci
-        subst hpc
-        refine ⟨pre, [], false, ?_, ?_, fun _ => rfl⟩
-        · intro st h
-          rw [exec_append, exec_append, h1 st h, transp_safe roots env r hs, exec_cons, exec_nil]
-          cases pf <;> simp [State.step, State.onIndexAccess]
-        · intro s
-          have := h2 []
-          rw [chain_nil] at this
-          rw [chain_index_nonlit _ _ _ _ _ _ hl, chain_safe _ _ _ _ hs, this]
-          simp [followAll_nil, followAll]
+      have hi := Inv.sem roots env ihi
+      refine ⟨reports roots env.lower dfn i ++ pre, (follow pc pf .idx).1, false, ?_, ?_⟩
+      · exact (hi.thenEff h1).thenSeg .index _ _
+          (fun rs => by cases pf <;> simp [State.step, State.onIndexAccess, follow])
+      · intro s; rw [chain_index_nonlit _ _ _ _ _ _ hl, h2]
+        cases pf <;> simp [followAll, follow]
   case case9 =>
-    intro c args ih hok hs
-    have hs' : isSafeCall env.lower c = false := by simpa [isSafeE] using hs
-    refine Inv.of_finish roots env (e := .call c args) (body := match lookupFuncs (env.lower c) env.funcs with
-        | none => []
-        | some _ => (checkArgs env args).2.2) ?_ (chain_call _ _ _ c args) ?_ hok hs
-    · rw [evs_call]; simp only [enterOf, leaveOf, hs']
-      cases lookupFuncs (env.lower c) env.funcs <;> simp
-    · intro hok
-      rw [ok] at hok
-      rw [reports]
-      simp only [hs', Bool.false_eq_true, if_false] at hok ⊢
-      split
-      · next hnone => simpa [dfnOf, hnone] using Sem.nil roots
-      · next sigs hsome =>
-        simp only [dfnOf, hsome, Option.isSome_some, Bool.not_true, Bool.false_eq_true, if_false] at hok ⊢
-        exact ih hok
+    intro c args ih
+    cases hs : isSafeE env.lower (.call c args)
+    · have hs' : isSafeCall env.lower c = false := by simpa [isSafeE] using hs
+      refine Inv.of_finish roots env (e := .call c args) (body := match lookupFuncs (env.lower c) env.funcs with
+          | none => []
+          | some _ => (checkArgs env args).2.2) ?_ (chain_call _ _ _ c args) ?_
+      · rw [evs_call]; simp only [enterOf, leaveOf, hs']
+        cases lookupFuncs (env.lower c) env.funcs <;> simp
+      · rw [reports]
+        simp only [hs', Bool.false_eq_true, if_false]
+        split
+        · next hnone => simpa [dfnOf, hnone] using Sem.nil roots
+        · next sigs hsome =>
+          simp only [dfnOf, hsome, Option.isSome_some, Bool.not_true, Bool.false_eq_true, if_false]
+          exact ih
+    · -- a safe call is `end()`: nothing of it is seen, the chain pending before it is finished
+      refine ⟨[], [], false, ?_, ?_⟩
+      · intro st h
+        rw [safe_finish roots env _ hs st h, finish_eq]
+        simp [h]
+      · intro s; rw [chain_safe _ _ _ _ hs]; simp [followAll_nil]
   case case10 =>
     intro e ih
     refine Inv.of_finish roots env (evs_not env e) (fun s => by simp [chain]) ?_
-    intro hok
-    rw [ok] at hok
     rw [reports]
-    exact Inv.sem roots env ih hok
+    exact Inv.sem roots env ih
   case case11 =>
     intro op l r ihl ihr
     refine Inv.of_finish roots env (evs_cmp env op l r) (fun s => by simp [chain]) ?_
-    intro hok
-    rw [ok] at hok
-    simp only [Bool.and_eq_true] at hok
     rw [reports]
-    exact (Inv.sem roots env ihl hok.1).append (Inv.sem roots env ihr hok.2)
+    exact (Inv.sem roots env ihl).append (Inv.sem roots env ihr)
   case case12 =>
     intro op l r ihl ihr
     refine Inv.of_finish roots env (evs_logical env op l r) (fun s => by simp [chain]) ?_
-    intro hok
-    rw [ok] at hok
-    simp only [Bool.and_eq_true] at hok
     rw [reports]
     have ihl' : Sem roots (narrow env l (dirOf op)).evs (reports roots env.lower dfn l) := by
-      cases op <;> exact ihl hok.1
-    exact ihl'.append (Inv.sem roots env ihr hok.2)
+      cases op <;> exact ihl
+    exact ihl'.append (Inv.sem roots env ihr)
   case case13 =>
-    intro l r ihl ihr hok
-    rw [ok] at hok
-    simp only [Bool.and_eq_true] at hok
+    intro l r ihl ihr
     rw [evs_narrow_and, reports]
-    exact (Inv.sem roots env ihl hok.1).append (Inv.sem roots env ihr hok.2)
+    exact (Inv.sem roots env ihl).append (Inv.sem roots env ihr)
   case case14 =>
-    intro l r ihl ihr hok
-    rw [ok] at hok
-    simp only [Bool.and_eq_true] at hok
+    intro l r ihl ihr
     rw [evs_narrow_or, reports]
-    exact (Inv.sem roots env ihl hok.1).append (Inv.sem roots env ihr hok.2)
+    exact (Inv.sem roots env ihl).append (Inv.sem roots env ihr)
   case case15 =>
-    intro op l r x h1 h2 ihl ihr hok
-    rw [ok] at hok
-    simp only [Bool.and_eq_true] at hok
+    intro op l r x h1 h2 ihl ihr
     rw [evs_narrow_logical env op l r x h1 h2, reports]
     have ihl' : Sem roots (narrow env l (dirOf op)).evs (reports roots env.lower dfn l) := by
-      cases op <;> exact ihl hok.1
-    exact ihl'.append (Inv.sem roots env ihr hok.2)
+      cases op <;> exact ihl
+    exact ihl'.append (Inv.sem roots env ihr)
   case case16 =>
-    intro e t ih hok
-    rw [ok] at hok
+    intro e t ih
     rw [evs_narrow_not, reports]
-    exact ih hok
+    exact ih
   case case17 =>
-    intro e x _ _ h3 h4 ih hok
+    intro e x _ _ h3 h4 ih
     rw [narrow_other env e x h3 h4]
-    exact Inv.sem roots env ih hok
+    exact Inv.sem roots env ih
   case case18 =>
-    intro _
     rw [evs_args_nil, reportsList]
     exact Sem.nil roots
   case case19 =>
-    intro a rest iha ihr hok
-    rw [okList] at hok
-    simp only [Bool.and_eq_true] at hok
+    intro a rest iha ihr
     rw [evs_args_cons, reportsList]
-    exact (Inv.sem roots env iha hok.1).append (ihr hok.2)
+    exact (Inv.sem roots env iha).append ihr
 
 /-- the machine, run on the events of `e` and finished, reports what the chain specification says -/
-theorem run_eq_reports (e : E) (hok : ok env.lower dfn e = true) :
+theorem run_eq_reports (e : E) :
     run roots (check env e).evs = reports roots env.lower dfn e := by
-  have h := (Inv.sem roots env (inv_all roots env e) hok) {} rfl
+  have h := (Inv.sem roots env (inv_all roots env e)) {} rfl
   rw [run_eq, h.2]
   simp [finish_eq]
 
